@@ -72,6 +72,10 @@ func driveC10(t *testing.T, out *vEmitter) {
 					last = nil
 				} else {
 					s := vRandSession(r)
+					if h%10 == 3 && st == 1 {
+						// every tenth history contains a session spread over more than ten cookies (part numbers of two digits)
+						s.AccessToken, s.IDToken, s.RefreshToken = vIncompressible(14000), vIncompressible(14000), vIncompressible(9000)
+					}
 					trace = append(trace, fmt.Sprintf("save(at=%d,idt=%d,groups=%d)", len(s.AccessToken), len(s.IDToken), len(s.Groups)))
 					if err := e.p.sessionStore.Save(rw, req, s); err != nil {
 						out.Violation("session-store/save-error", "Save failed on a healthy store", map[string]interface{}{"store": k.name, "error": err.Error(), "trace": trace})
